@@ -4,9 +4,9 @@ package auctioneer
 
 import "github.com/lightninglabs/pool/auctioneerrpc"
 
-// VerifClientWithStream returns a Client whose outgoing message stream is s,
+// VerifC19ClientWithStream returns a Client whose outgoing message stream is s,
 // so that the verification harness can observe what a handler sends.
-func VerifClientWithStream(
+func VerifC19ClientWithStream(
 	s auctioneerrpc.ChannelAuctioneer_SubscribeBatchAuctionClient) *Client {
 
 	return &Client{serverStream: s}
